@@ -1,7 +1,301 @@
-//! C04 oracle: setsum books (manifest chain, listed files, file contents).  Filled in below.
+//! C04 oracle: the setsum books.  After every operation the manifest fragments on disk are parsed
+//! with the public `ManifestIterator` and checked: every transaction starts from the previous
+//! output, satisfies input = output + discard with discard = removed - added, every fragment
+//! starts with the complete state, the current output equals the sum of the listed digests, and
+//! every listed digest names a file whose final block and whose recomputed contents agree with
+//! its name.
+
+use std::collections::{BTreeMap, BTreeSet, HashMap};
+use std::path::{Path, PathBuf};
+
+use mani::ManifestIterator;
+use setsum::Setsum;
+use sst::{Sst, SstOptions};
+
 use crate::exec::Exec;
 
 #[derive(Default)]
-pub struct Books {}
+pub struct Books {
+    /// (fragment number, edit index) already checked.
+    seen: BTreeSet<(u64, usize)>,
+    /// Output setsum after the last edit of each fragment number, and the state there.
+    frag_end: BTreeMap<u64, (Setsum, BTreeSet<String>)>,
+    /// How many transactions removed / added each digest over the run.
+    pub removals: HashMap<String, u32>,
+    pub additions: HashMap<String, u32>,
+    /// Digests whose file contents have been verified against their name.
+    verified_files: BTreeSet<String>,
+    pub transactions_checked: u64,
+    pub fragments_seen: BTreeSet<u64>,
+}
 
-pub fn check(_ex: &mut Exec) {}
+pub fn list_fragments(root: &Path) -> Vec<(u64, PathBuf)> {
+    let mani_root = root.join("mani");
+    let mut nums: Vec<u64> = Vec::new();
+    if let Ok(rd) = std::fs::read_dir(&mani_root) {
+        for e in rd.flatten() {
+            if let Some(n) = mani::extract_backup(e.path()) {
+                nums.push(n);
+            }
+        }
+    }
+    nums.sort();
+    // `Manifest` numbers its first backup 1, so a lone MANIFEST is fragment 1.
+    let next = nums.last().map(|n| n + 1).unwrap_or(1);
+    let mut out: Vec<(u64, PathBuf)> = nums
+        .into_iter()
+        .map(|n| (n, mani::BACKUP(&mani_root, n)))
+        .collect();
+    let cur = mani::MANIFEST(&mani_root);
+    if cur.is_file() {
+        out.push((next, cur));
+    }
+    out
+}
+
+fn info_setsum(edit: &mani::Edit, c: char) -> Option<Setsum> {
+    edit.get_info(c).and_then(|s| Setsum::from_hexdigest(s))
+}
+
+/// Verify that the file named by `hex` has that digest in its final block and in its contents.
+pub fn verify_file(root: &Path, hex: &str) -> Result<(), (String, String)> {
+    let path = root.join("sst").join(format!("{hex}.sst"));
+    if !path.is_file() {
+        return Err(("file:missing".into(), format!("manifest lists {hex} but sst/{hex}.sst does not exist")));
+    }
+    let sst = Sst::<sst::file_manager::FileHandle>::new(SstOptions::default(), &path)
+        .map_err(|e| ("file:unreadable".to_string(), format!("{hex}: {e}")))?;
+    let fast = sst.fast_setsum().into_inner().hexdigest();
+    if fast != hex {
+        return Err((
+            "file:name-differs-from-final-block".into(),
+            format!("sst/{hex}.sst records setsum {fast} in its final block"),
+        ));
+    }
+    let entries = crate::conserve::dump_file(&path).map_err(|e| ("file:unreadable".to_string(), e))?;
+    let mut acc = sst::Setsum::default();
+    for (k, ts, v) in entries.iter() {
+        match v {
+            Some(v) => acc.put(k, *ts, v),
+            None => acc.del(k, *ts),
+        }
+    }
+    let recomputed = acc.into_inner().hexdigest();
+    if recomputed != hex {
+        return Err((
+            "file:contents-differ-from-name".into(),
+            format!("sst/{hex}.sst: entries recompute to {recomputed}"),
+        ));
+    }
+    Ok(())
+}
+
+pub fn check(ex: &mut Exec) {
+    let root = ex.root.clone();
+    let frags = list_fragments(&root);
+    let mut current_state: BTreeSet<String> = BTreeSet::new();
+    let mut current_output: Option<Setsum> = None;
+    for (num, path) in frags.iter() {
+        ex.c04.fragments_seen.insert(*num);
+        let iter = match ManifestIterator::open(path) {
+            Ok(i) => i,
+            Err(e) => {
+                ex.violate("C04", "manifest:unreadable", format!("{}: {e}", path.display()));
+                return;
+            }
+        };
+        let mut state: BTreeSet<String> = BTreeSet::new();
+        let mut prev_output: Option<Setsum> = None;
+        let mut idx = 0usize;
+        for edit in iter {
+            let edit = match edit {
+                Ok(e) => e,
+                Err(e) => {
+                    ex.violate("C04", "manifest:unreadable", format!("fragment {num} edit {idx}: {e}"));
+                    return;
+                }
+            };
+            let new = !ex.c04.seen.contains(&(*num, idx));
+            let i = info_setsum(&edit, 'I');
+            let o = info_setsum(&edit, 'O');
+            let d = info_setsum(&edit, 'D');
+            for r in edit.rmed() {
+                state.remove(r);
+            }
+            for a in edit.added() {
+                state.insert(a.clone());
+            }
+            if new {
+                ex.c04.seen.insert((*num, idx));
+                let (i, o, d) = match (i, o, d) {
+                    (Some(i), Some(o), Some(d)) => (i, o, d),
+                    _ => {
+                        ex.violate(
+                            "C04",
+                            "chain:transaction-lacks-I-O-D",
+                            format!("fragment {num} edit {idx} has no parsable I/O/D"),
+                        );
+                        return;
+                    }
+                };
+                if idx == 0 {
+                    // Roll-up: must continue the previous fragment and carry the complete state.
+                    if let Some((end_o, end_state)) = ex.c04.frag_end.get(&num.wrapping_sub(1)) {
+                        if *end_o != o {
+                            ex.violate(
+                                "C04",
+                                "rollover:first-edit-output-differs-from-previous-fragment",
+                                format!("fragment {num} starts with O={} but fragment {} ended with O={}", o.hexdigest(), num - 1, end_o.hexdigest()),
+                            );
+                            return;
+                        }
+                        if *end_state != state {
+                            ex.violate(
+                                "C04",
+                                "rollover:first-edit-not-complete-state",
+                                format!("fragment {num} starts with {} digests, fragment {} ended with {}", state.len(), num - 1, end_state.len()),
+                            );
+                            return;
+                        }
+                    }
+                } else {
+                    ex.c04.transactions_checked += 1;
+                    for r in edit.rmed() {
+                        *ex.c04.removals.entry(r.clone()).or_insert(0) += 1;
+                    }
+                    for a in edit.added() {
+                        *ex.c04.additions.entry(a.clone()).or_insert(0) += 1;
+                    }
+                    if let Some(po) = prev_output {
+                        if po != i {
+                            ex.violate(
+                                "C04",
+                                "chain:input-differs-from-previous-output",
+                                format!("fragment {num} edit {idx}: I={} previous O={}", i.hexdigest(), po.hexdigest()),
+                            );
+                            return;
+                        }
+                    }
+                    if i != o + d {
+                        ex.violate(
+                            "C04",
+                            "chain:input-not-output-plus-discard",
+                            format!("fragment {num} edit {idx}: I={} O={} D={}", i.hexdigest(), o.hexdigest(), d.hexdigest()),
+                        );
+                        return;
+                    }
+                    let mut computed = Setsum::default();
+                    let mut bad = None;
+                    for a in edit.added() {
+                        match Setsum::from_hexdigest(a) {
+                            Some(s) => computed -= s,
+                            None => bad = Some(a.clone()),
+                        }
+                    }
+                    for r in edit.rmed() {
+                        match Setsum::from_hexdigest(r) {
+                            Some(s) => computed += s,
+                            None => bad = Some(r.clone()),
+                        }
+                    }
+                    if let Some(b) = bad {
+                        ex.violate("C04", "chain:listed-string-is-not-a-digest", format!("fragment {num} edit {idx}: {b:?}"));
+                        return;
+                    }
+                    if computed != d {
+                        ex.violate(
+                            "C04",
+                            "chain:discard-differs-from-removed-minus-added",
+                            format!("fragment {num} edit {idx}: D={} removed-added={}", d.hexdigest(), computed.hexdigest()),
+                        );
+                        return;
+                    }
+                }
+            }
+            prev_output = o.or(prev_output);
+            idx += 1;
+        }
+        if let Some(po) = prev_output {
+            ex.c04.frag_end.insert(*num, (po, state.clone()));
+        }
+        current_state = state;
+        current_output = prev_output;
+    }
+    // The committed state: output equals the sum of what is listed.
+    if let Some(o) = current_output {
+        let mut sum = Setsum::default();
+        for hex in current_state.iter() {
+            if let Some(s) = Setsum::from_hexdigest(hex) {
+                sum += s;
+            }
+        }
+        if sum != o {
+            ex.violate(
+                "C04",
+                "state:output-differs-from-sum-of-listed-digests",
+                format!("O={} but the {} listed digests sum to {}", o.hexdigest(), current_state.len(), sum.hexdigest()),
+            );
+            return;
+        }
+    }
+    // The running tree agrees with the manifest.
+    if let Some(store) = ex.store.as_ref() {
+        let tree: BTreeSet<String> = store
+            .tree()
+            .verif_levels()
+            .iter()
+            .flat_map(|l| l.iter().map(|f| f.0.hexdigest()))
+            .collect();
+        if tree != current_state {
+            ex.violate(
+                "C04",
+                "state:tree-differs-from-manifest",
+                format!("tree holds {} files, manifest lists {}", tree.len(), current_state.len()),
+            );
+            return;
+        }
+    }
+    // Every listed file is what its name says.
+    for hex in current_state.iter() {
+        if ex.c04.verified_files.contains(hex) {
+            if !root.join("sst").join(format!("{hex}.sst")).is_file() {
+                ex.violate("C04", "file:missing", format!("manifest lists {hex} but sst/{hex}.sst does not exist"));
+                return;
+            }
+            continue;
+        }
+        match verify_file(&root, hex) {
+            Ok(()) => {
+                ex.c04.verified_files.insert(hex.clone());
+                ex.probes.hit("c04_files_recomputed");
+            }
+            Err((class, detail)) => {
+                ex.violate("C04", class, detail);
+                return;
+            }
+        }
+    }
+}
+
+/// Accept half: the offline manifest verifier accepts every fragment present.
+pub fn manifest_verifier_accepts(ex: &mut Exec) {
+    let frags = list_fragments(&ex.root);
+    let v = match lsmtk::ManifestVerifier::open() {
+        Ok(v) => v,
+        Err(e) => {
+            ex.violate("C04", "manifest-verifier:open-error", format!("{e}"));
+            return;
+        }
+    };
+    for (num, path) in frags.iter() {
+        if let Err(e) = v.verify(path) {
+            ex.violate(
+                "C04",
+                format!("manifest-verifier:rejects-fault-free-fragment:{}", crate::exec::err_class(&format!("{e}"))),
+                format!("ManifestVerifier rejects fragment {num}: {e}"),
+            );
+            return;
+        }
+        ex.probes.hit("c04_fragments_accepted_by_manifest_verifier");
+    }
+}
